@@ -19,24 +19,57 @@ Cases == ndJsonDeserialize(IOEnv.CASES)
 
 Blocks(ss) == {Range(ss[k]) : k \in DOMAIN ss}
 
+(* ---- the views, defined from the abstract network (not taken from the code) ----
+   net = [sp |-> <<species>>, rx |-> <<[id, rule, l, r]>>]
+   node labels: species 1 (101 with a self-loop in the species view), reaction 2
+   arc codes : reactant arc 10 (+ coefficient if stoichiometry is selected),
+               product arc 50 (+ coefficient), species-graph arc 1, plain arc 1 *)
+Coef(side, x) == IF x \in DOMAIN side THEN side[x] ELSE 0
+BipView(N, st, plain) ==
+   LET ns == Len(N.sp)
+       nr == Len(N.rx)
+   IN [n |-> ns + nr,
+       lab |-> [k \in 1..(ns + nr) |-> IF k <= ns THEN 1 ELSE 2],
+       hc |-> [k \in 1..(ns + nr) |-> 0],
+       adj |-> [u \in 1..(ns + nr) |-> [v \in 1..(ns + nr) |->
+          IF u <= ns /\ v > ns
+          THEN (LET c == Coef(N.rx[v - ns].l, N.sp[u]) IN
+                IF c = 0 THEN 0 ELSE IF plain THEN 1 ELSE 10 + (IF st THEN c ELSE 0))
+          ELSE IF u > ns /\ v <= ns
+          THEN (LET c == Coef(N.rx[u - ns].r, N.sp[v]) IN
+                IF c = 0 THEN 0 ELSE IF plain THEN 1 ELSE 50 + (IF st THEN c ELSE 0))
+          ELSE 0]]]
+SpView(N) ==
+   LET ns == Len(N.sp)
+       Arc(a, b) == \E j \in DOMAIN N.rx : N.sp[a] \in DOMAIN N.rx[j].l /\ N.sp[b] \in DOMAIN N.rx[j].r
+   IN [n |-> ns,
+       lab |-> [k \in 1..ns |-> IF Arc(k, k) THEN 101 ELSE 1],
+       hc |-> [k \in 1..ns |-> 0],
+       adj |-> [u \in 1..ns |-> [v \in 1..ns |-> IF u # v /\ Arc(u, v) THEN 1 ELSE 0]]]
+ViewOf(N, r, plain) == IF r.bipartite THEN BipView(N, r.stoich, plain) ELSE SpView(N)
+
 RunVerdict(r) ==
-   LET m == Len(r.view)
+   LET m == Len(r.nets)
        tag == r.cfg
+       view == [k \in 1..m |-> ViewOf(r.nets[k], r, FALSE)]
+       vplain == [k \in 1..m |-> ViewOf(r.nets[k], r, TRUE)]
    IN FirstFail(<<
+      <<tag \o ":view-used-by-the-code-is-not-the-view-of-the-network",
+          \A k \in 1..m : IsIso(view[k], r.view[k]) /\ IsIso(vplain[k], r.view_plain[k])>>,
       <<tag \o ":canonical-graph-not-isomorphic-to-its-view",
-          \A k \in 1..m : IsIso(r.view[k], r.cg[k])>>,
+          \A k \in 1..m : IsIso(view[k], r.cg[k])>>,
       <<tag \o ":isomorphic-networks-get-different-canonical-graphs",
-          \A a, b \in 1..m : (a < b /\ IsIso(r.view[a], r.view[b])) => (r.cgids[a] = r.cgids[b] /\ SameGraph(r.cg[a], r.cg[b]))>>,
+          \A a, b \in 1..m : (a < b /\ IsIso(view[a], view[b])) => (r.cgids[a] = r.cgids[b] /\ SameGraph(r.cg[a], r.cg[b]))>>,
       <<tag \o ":non-isomorphic-networks-get-the-same-canonical-graph",
-          \A a, b \in 1..m : (a < b /\ ~IsIso(r.view[a], r.view[b])) => ~(r.cgids[a] = r.cgids[b] /\ SameGraph(r.cg[a], r.cg[b]))>>,
+          \A a, b \in 1..m : (a < b /\ ~IsIso(view[a], view[b])) => ~(r.cgids[a] = r.cgids[b] /\ SameGraph(r.cg[a], r.cg[b]))>>,
       <<tag \o ":canonicaliser-automorphism-count",
-          \A k \in 1..m : r.naut[k] = Cardinality(Autos(r.view[k]))>>,
+          \A k \in 1..m : r.naut[k] = Cardinality(Autos(view[k]))>>,
       <<tag \o ":canonicaliser-orbits",
-          \A k \in 1..m : Blocks(r.orbits[k]) = Orbits(r.view[k])>>,
+          \A k \in 1..m : Blocks(r.orbits[k]) = {{r.align[k][x] : x \in o} : o \in Orbits(view[k])}>>,
       <<tag \o ":automorphism-count",
-          \A k \in 1..m : r.aut_naut[k] = Cardinality(Autos(r.view_plain[k]))>>,
+          \A k \in 1..m : r.aut_naut[k] = Cardinality(Autos(vplain[k]))>>,
       <<tag \o ":automorphism-orbits",
-          \A k \in 1..m : Blocks(r.aut_orbits[k]) = Orbits(r.view_plain[k])>>
+          \A k \in 1..m : Blocks(r.aut_orbits[k]) = {{r.align_plain[k][x] : x \in o} : o \in Orbits(vplain[k])}>>
    >>)
 
 RECURSIVE RunsFrom(_, _)
